@@ -18,6 +18,8 @@ use crate::{e2::world::render, gen::baseline, report::{guard, hex, Acc, Site, Ti
 const WATCHDOG: Duration = Duration::from_secs(2);
 
 thread_local! {
+    /// how many messages the server should wait for from the client before it stops (write tests)
+    static EXPECT_FROM_CLIENT: std::cell::Cell<usize> = const { std::cell::Cell::new(0) };
     static LISTENER: std::net::TcpListener = {
         let l = std::net::TcpListener::bind("127.0.0.1:0").expect("bind");
         l.set_nonblocking(true).expect("nonblocking");
@@ -54,6 +56,7 @@ fn with_server<T: Send + 'static>(
         let listener = tokio::net::TcpListener::from_std(std_listener).map_err(|e| e.to_string())?;
         let addr = listener.local_addr().unwrap();
         let (close_tx, close_rx) = tokio::sync::oneshot::channel::<()>();
+        let expect = EXPECT_FROM_CLIENT.with(|c| c.get());
         let server = tokio::spawn(async move {
             let (stream, _) = listener.accept().await.map_err(|e| e.to_string())?;
             let mut ws = tokio_tungstenite::accept_async(stream).await.map_err(|e| e.to_string())?;
@@ -64,6 +67,14 @@ fn with_server<T: Send + 'static>(
             let mut close_rx = close_rx;
             let mut closing = false;
             loop {
+                if expect > 0 && received.len() >= expect {
+                    // everything expected has arrived: a short grace period for anything unexpected
+                    while let Ok(Some(Ok(x))) = tokio::time::timeout(Duration::from_millis(60), ws.next()).await {
+                        if matches!(x, Message::Close(_)) { break; }
+                        if !matches!(x, Message::Pong(_)) { received.push(x); }
+                    }
+                    break;
+                }
                 tokio::select! {
                     _ = &mut close_rx, if !closing => {
                         closing = true;
@@ -83,6 +94,8 @@ fn with_server<T: Send + 'static>(
             Ok::<_, String>(received)
         });
         let tcp = tokio::time::timeout(WATCHDOG, tokio::net::TcpStream::connect(addr)).await.map_err(|_| "connect timed out".to_string())?.map_err(|e| e.to_string())?;
+        // as the library's own connect does: without it Nagle + delayed ACK hold a second small message back for ~40 ms
+        let _ = tcp.set_nodelay(true);
         // reset on close: no TIME_WAIT on the client side
         let _ = tcp.set_linger(Some(Duration::ZERO));
         let (ws, _) = tokio::time::timeout(WATCHDOG, tokio_tungstenite::client_async(format!("ws://{addr}/connect"), tokio_tungstenite::MaybeTlsStream::Plain(tcp)))
@@ -95,6 +108,7 @@ fn with_server<T: Send + 'static>(
 
 /// Level 1: the adaptor as a byte stream. Returns bytes read before close and the result of the read after close.
 fn adaptor_reads(script: Vec<Msg>, total: usize, read_size: usize) -> Result<(Vec<u8>, Result<usize, String>), String> {
+    EXPECT_FROM_CLIENT.with(|c| c.set(0));
     let r = with_server(script, move |mut ws, close| Box::pin(async move {
         let mut got = vec![];
         let mut buf = vec![0u8; read_size];
@@ -119,6 +133,7 @@ fn adaptor_reads(script: Vec<Msg>, total: usize, read_size: usize) -> Result<(Ve
 
 /// Level 2: a connection over the adaptor. Returns the rendered results of read() until Disconnected/error.
 fn framed_reads(script: Vec<Msg>, expect_results: usize) -> Result<Vec<String>, String> {
+    EXPECT_FROM_CLIENT.with(|c| c.set(0));
     let r = with_server(script, move |ws, close| Box::pin(async move {
         let mut framed = Framed::new(Box::new(ws), Codec::new(Mode::Uncompressed));
         let mut out = vec![];
@@ -138,15 +153,51 @@ fn framed_reads(script: Vec<Msg>, expect_results: usize) -> Result<Vec<String>, 
     Ok(r.0)
 }
 
-fn framed_write(p: Packet) -> Result<Vec<Message>, String> {
+fn framed_write(p: Packet, compressed: bool) -> Result<Vec<Message>, String> {
+    EXPECT_FROM_CLIENT.with(|c| c.set(1));
     let r = with_server(vec![], move |ws, close| Box::pin(async move {
-        let mut framed = Framed::new(Box::new(ws), Codec::new(Mode::Uncompressed));
+        let mut framed = Framed::new(Box::new(ws), Codec::new(if compressed { Mode::Compressed } else { Mode::Uncompressed }));
         let r = tokio::time::timeout(WATCHDOG, framed.write(p)).await;
-        // give the message time to reach the server before closing
-        tokio::time::sleep(Duration::from_millis(30)).await;
+        // keep the connection open until the server has seen what it expects (it stops by itself)
+        tokio::time::sleep(Duration::from_millis(150)).await;
         let _ = close.send(());
         match r { Err(_) => Err("write timed out".to_string()), Ok(Err(e)) => Err(e.to_string()), Ok(Ok(())) => Ok(()) }
     }))?;
+    EXPECT_FROM_CLIENT.with(|c| c.set(0));
+    r.0?;
+    Ok(r.1)
+}
+
+fn framed_write_many(ps: Vec<Packet>) -> Result<Vec<Message>, String> {
+    EXPECT_FROM_CLIENT.with(|c| c.set(ps.len()));
+    let r = with_server(vec![], move |ws, close| Box::pin(async move {
+        if std::env::var("C20_DEBUG_RAW").is_ok() {
+            // debugging aid: bypass Framed, write through the adaptor with AsyncWriteExt
+            use tokio::io::AsyncWriteExt;
+            let mut ws = ws;
+            let codec = Codec::new(Mode::Uncompressed);
+            for p in ps {
+                let b = codec.encode(&p).unwrap();
+                ws.write_all(&b).await.map_err(|e| e.to_string())?;
+                if std::env::var("C20_DEBUG_FLUSH").is_ok() { ws.flush().await.map_err(|e| e.to_string())?; }
+            }
+            tokio::time::sleep(Duration::from_millis(300)).await;
+            let _ = close.send(());
+            return Ok(());
+        }
+        let mut framed = Framed::new(Box::new(ws), Codec::new(Mode::Uncompressed));
+        for p in ps {
+            match tokio::time::timeout(WATCHDOG, framed.write(p)).await {
+                Err(_) => return Err("write timed out".to_string()),
+                Ok(Err(e)) => return Err(e.to_string()),
+                Ok(Ok(())) => {},
+            }
+        }
+        tokio::time::sleep(Duration::from_millis(150)).await;
+        let _ = close.send(());
+        Ok(())
+    }))?;
+    EXPECT_FROM_CLIENT.with(|c| c.set(0));
     r.0?;
     Ok(r.1)
 }
@@ -317,27 +368,65 @@ pub fn sites(tier: Tier) -> Vec<Site> {
     // 3. every written packet leaves as exactly one binary message holding exactly its frame
     {
         let kinds = spec::load();
-        let mut packets: Vec<(String, Packet, Vec<u8>)> = vec![];
-        let codec = Codec::new(Mode::Uncompressed);
-        for k in &kinds {
-            let vals = baseline(k, 1);
-            let Some(f) = spec::ref_encode(k, &vals, false) else { continue };
-            let mut b = BytesMut::from(&f[..]);
-            let Ok(Some(p)) = codec.decode(&mut b) else { continue };
-            let Ok(w) = codec.encode(&p) else { continue };
-            packets.push((k.name.clone(), p, w.to_vec()));
+        let mut packets: Vec<(String, Packet, Vec<u8>, bool)> = vec![];
+        for compressed in [false, true] {
+            let codec = Codec::new(if compressed { Mode::Compressed } else { Mode::Uncompressed });
+            for k in &kinds {
+                let vals = baseline(k, 1);
+                let Some(f) = spec::ref_encode(k, &vals, compressed) else { continue };
+                let mut b = BytesMut::from(&f[..]);
+                let Ok(Some(p)) = codec.decode(&mut b) else { continue };
+                let Ok(w) = codec.encode(&p) else { continue };
+                packets.push((format!("{} {}", k.name, if compressed { "compressed" } else { "uncompressed" }), p, w.to_vec(), compressed));
+            }
+            // the largest frames each counted kind can produce in this mode
+            for c in crate::typed::counted() {
+                for n in [c.max, c.max / 2, (1016 - c.header) / c.elem, (252 - c.header) / c.elem] {
+                    let Some(p) = (c.make)(n) else { continue };
+                    let Ok(Ok(w)) = guard(|| codec.encode(&p)) else { continue };
+                    packets.push((format!("{} x{n} ({} B) {}", c.kind, w.len(), if compressed { "compressed" } else { "uncompressed" }), p, w.to_vec(), compressed));
+                }
+            }
         }
         let packets = Arc::new(packets);
-        sites.push(Site::new("writes", packets.len() as u64, "every kind's B1 packet written through a connection over the adaptor", move |i, acc| {
-            let (name, p, want) = &packets[i as usize];
+        sites.push(Site::new("writes", packets.len() as u64, "every kind's B1 packet and the largest frames of every counted kind (up to 1016 B), in both size modes, written through a connection over the adaptor", move |i, acc| {
+            let (name, p, want, compressed) = &packets[i as usize];
             acc.eval();
             let replay = json!({"site": "writes", "index": i, "kind": name});
-            match guard(|| framed_write(p.clone())) {
+            match guard(|| framed_write(p.clone(), *compressed)) {
                 Err(pn) => acc.violate(i, "C20|write|panic".into(), format!("{name}: {pn}"), replay),
                 Ok(Err(e)) => acc.violate(i, "C20|write|failed".into(), format!("{name}: {e}"), replay),
                 Ok(Ok(msgs)) => {
                     if msgs.len() == 1 && matches!(&msgs[0], Message::Binary(b) if b[..] == want[..]) { acc.class("one-binary-message"); acc.nontrivial(); }
                     else { acc.violate(i, "C20|write|not-one-binary-message".into(), format!("{name}: the server received {} message(s) {:?} for the frame {}", msgs.len(), msgs.iter().map(|m| format!("{}:{}", if m.is_binary() { "binary" } else { "other" }, m.len())).collect::<Vec<_>>(), hex(&want[..want.len().min(20)])), replay); }
+                },
+            }
+        }));
+    }
+    // 3b. consecutive writes stay separate messages, in order
+    {
+        use insim::{identifiers::RequestId, insim::{Mst, Small, SmallType, Tiny, TinyType}};
+        let pk: Vec<(&str, Packet)> = vec![
+            ("tiny", Packet::Tiny(Tiny { reqi: RequestId(1), subt: TinyType::Ping })),
+            ("small", Packet::Small(Small { reqi: RequestId(2), subt: SmallType::Tms(true) })),
+            ("mst", Packet::Mst(Mst { reqi: RequestId(3), msg: "hello".into() })),
+        ];
+        let pk = Arc::new(pk);
+        sites.push(Site::new("writes-sequence", 9 + 27, "every sequence of 2 and 3 writes over {TINY, SMALL, MST}: the server must see one binary message per write, in order", move |i, acc| {
+            let idx: Vec<usize> = if i < 9 { vec![(i / 3) as usize, (i % 3) as usize] } else { let j = i - 9; vec![(j / 9) as usize, ((j / 3) % 3) as usize, (j % 3) as usize] };
+            let ps: Vec<Packet> = idx.iter().map(|k| pk[*k].1.clone()).collect();
+            let label: Vec<&str> = idx.iter().map(|k| pk[*k].0).collect();
+            let codec = Codec::new(Mode::Uncompressed);
+            let want: Vec<Vec<u8>> = ps.iter().map(|p| codec.encode(p).unwrap().to_vec()).collect();
+            acc.eval();
+            let replay = json!({"site": "writes-sequence", "index": i, "packets": label});
+            match guard(|| framed_write_many(ps)) {
+                Err(pn) => acc.violate(i, "C20|write|panic".into(), format!("{label:?}: {pn}"), replay),
+                Ok(Err(e)) => acc.violate(i, "C20|write|failed".into(), format!("{label:?}: {e}"), replay),
+                Ok(Ok(msgs)) => {
+                    let ok = msgs.len() == want.len() && msgs.iter().zip(&want).all(|(m, w)| matches!(m, Message::Binary(b) if b[..] == w[..]));
+                    if ok { acc.class("one-message-per-write"); acc.nontrivial(); }
+                    else { acc.violate(i, "C20|write|not-one-binary-message-per-write".into(), format!("{label:?}: the server received {:?}", msgs.iter().map(|m| format!("{}:{}", if m.is_binary() { "binary" } else { "other" }, m.len())).collect::<Vec<_>>()), replay); }
                 },
             }
         }));
